@@ -359,11 +359,13 @@ CHECKS = {
         assumptions=["values are JSON-serialisable (they arrive by JSON-RPC)", "kill = SIGKILL of the process; no power loss (page cache survives)"],
     ),
     "C11": dict(
-        pkg=".", hdir="root", test="TestVerif_C11", wal=True,
-        quick=dict(shards=32, checks=200, timeout=900),
-        thorough=dict(shards=32, checks=4500, timeout=5400),
+        pkg=".", hdir="root", test="TestVerif_C11S?", ids=["C11", "C11S"], wal=True,
+        quick=dict(shards=32, checks=1, per_test={"TestVerif_C11": 200, "TestVerif_C11S": 5}, timeout=900),
+        thorough=dict(shards=32, checks=1, per_test={"TestVerif_C11": 4500, "TestVerif_C11S": 150}, timeout=5400),
         technique="stateful property-based testing (rapid) of the real SourceControl + Start/CoreLoop: watchdog with goroutine-dump quiescence test, progress counter, enter/exit monitor around block processing and request application",
-        rule="rapid-generated request histories (requests before start, 2-14 while running, 1-4 after the source stopped or ended itself, optionally a "
+        rule="(S) requests of a second client connection while a Start is still sampling its device (real SourceControl + ROACH source over "
+             "loopback, device silent for 0-700 ms): each is answered, and after a successful Start valid requests and Stop are served. "
+             "(main) rapid-generated request histories (requests before start, 2-14 while running, 1-4 after the source stopped or ended itself, optionally a "
              "restart and more) from one client against a real SourceControl: ConfigureTriggers (indices in/out of range/negative/empty, all trigger kinds "
              "incl. edge-multi), ConfigurePulseLengths (valid, non-positive, too small), ConfigureProjectorsBasis (valid, wrong shape, mismatched, "
              "truncated/short/empty/huge-header/garbage blobs, bad base64, bad channel), WriteControl (START x type subsets, STOP, PAUSE, UNPAUSE[ label], "
